@@ -131,6 +131,24 @@ def run(ctx: Ctx) -> Result:
             if okbad: viol('builder: decryption with a random scalar unlocks the signature lock', inp, 'False', str(okbad))
             if okm and covered: viol('builder: adapter witness accepted for a different covered sigfield', inp, 'False', str(okm))
             lines.append((dict(sf), w.bytes + l1.bytes)); lines.append((dict(sf), wsig.bytes + l3.bytes))
+            # the single-script lock (tweak scalar, then the adapter): bound to the tweak point it was built for
+            s_pub = T.make_adapter_lock_pub(X, Tp, flags); s_prv = T.make_adapter_lock_prv(X, t_raw, flags)
+            if s_pub.bytes != s_prv.bytes:
+                viol('make_adapter_lock_prv vs make_adapter_lock_pub(X, t*G)', inp, s_pub.bytes.hex(), s_prv.bytes.hex())
+            t2_raw = V.rbytes(rng, 32); T2p = nb.crypto_scalarmult_ed25519_base_noclamp(clamp(t2_raw))
+            w2 = T.make_adapter_witness(seed, T2p, sf, flags)            # a perfectly good adapter - for another tweak point
+            def un(tw, wit): return T.compile_script(f'push x{tw.hex()} {wit.src}')
+            with vmrun.Env(cfg) as env:
+                h_ok = env.F.run_auth_scripts([un(t_raw, w), s_pub.bytes], dict(sf))
+                forged = env.F.run_auth_scripts([un(t2_raw, w2), s_pub.bytes], dict(sf))
+                mixed = env.F.run_auth_scripts([un(t2_raw, w), s_pub.bytes], dict(sf))
+                mixed2 = env.F.run_auth_scripts([un(t_raw, w2), s_pub.bytes], dict(sf))
+            inp2 = {**inp, 'other_tweak': t2_raw.hex(), 'lock': s_pub.bytes.hex()}
+            if not h_ok: viol('single-script adapter lock: adapter for T opened with t', {**inp2, 'scripts': [un(t_raw, w).hex(), s_pub.bytes.hex()]}, 'True', str(h_ok))
+            if forged: viol('single-script adapter lock built for T accepts an adapter made for another tweak point T2 opened with t2', {**inp2, 'scripts': [un(t2_raw, w2).hex(), s_pub.bytes.hex()]}, 'False', str(forged))
+            if mixed: viol('single-script adapter lock: adapter for T opened with a different scalar', {**inp2, 'scripts': [un(t2_raw, w).hex(), s_pub.bytes.hex()]}, 'False', str(mixed))
+            if mixed2: viol('single-script adapter lock: adapter for T2 opened with t', {**inp2, 'scripts': [un(t_raw, w2).hex(), s_pub.bytes.hex()]}, 'False', str(mixed2))
+            lines.append((dict(sf), un(t_raw, w) + s_pub.bytes)); lines.append((dict(sf), un(t2_raw, w2) + s_pub.bytes))
         except BaseException as e:
             viol('adapter builders raised', {'seed': seed.hex(), 'tweak': t_raw.hex(), 'flags': flags}, 'no exception', type(e).__name__ + ': ' + str(e))
     # K4: the PRIVATE construction does not satisfy the adapter check
